@@ -21,7 +21,7 @@ var (
 	mkC04 = func() []*sim.Mon { return []*sim.Mon{sim.MonC04()} }
 	mkC10 = func() []*sim.Mon { return []*sim.Mon{sim.MonC10()} }
 	shC01 = Shape{}
-	shC02 = Shape{}
+	shC02 = Shape{ShareBound: 25}
 	shC03 = Shape{}
 	shC04 = Shape{MaxN: 10}
 	shC10 = Shape{}
